@@ -1742,6 +1742,11 @@ def _serialize_experimental_value_info_for_function_ir9_into(
     def format_name(value_name: str) -> str:
         return f"{function_qualified_name}/{value_name}"
 
+    # The format has no room for an overload, and names may contain "/" themselves, so two
+    # values can map to the same entry name. Write each name once: duplicated value info
+    # names would be read back as whichever comes last, and the next serialization would differ.
+    written_names = {value_info.name for value_info in graph_proto.value_info}
+
     for input in function.inputs:
         if not input.name:
             logger.warning(
@@ -1753,6 +1758,9 @@ def _serialize_experimental_value_info_for_function_ir9_into(
         if not _should_create_value_info_for_value(input):
             # No need to serialize value info if it is not set
             continue
+        if format_name(input.name) in written_names:
+            continue
+        written_names.add(format_name(input.name))
         serialize_value_into(graph_proto.value_info.add(), input, name=format_name(input.name))
     for node in function:
         for node_output in node.outputs:
@@ -1766,6 +1774,9 @@ def _serialize_experimental_value_info_for_function_ir9_into(
             if not _should_create_value_info_for_value(node_output):
                 # No need to serialize value info if it is not set
                 continue
+            if format_name(node_output.name) in written_names:
+                continue
+            written_names.add(format_name(node_output.name))
             serialize_value_into(
                 graph_proto.value_info.add(),
                 node_output,
